@@ -47,6 +47,8 @@ def build_tasks(pid: str, tier: str, seed: int, budget_s: float, workers: int) -
             continue
         ad = envs.get(name)
         for cfg in prop.select_configs(ad, tier):
+            if cfg.get("props") and pid not in cfg["props"]:
+                continue  # a configuration reserved for some properties
             for shard in range(prop.shards(ad, cfg, tier)):
                 t = {"prop": pid, "env": name, "cfg": cfg, "shard": shard, "seed": seed, "tier": tier,
                      "cost": prop.cost(ad, cfg)}
